@@ -4,6 +4,7 @@
 package main
 
 import (
+	"bytes"
 	"encoding/hex"
 	"encoding/json"
 	"fmt"
@@ -302,6 +303,69 @@ func check(st *stats, prop string, m proto.Message, desc string) {
 	w := newMsg()
 	if err := proto.Unmarshal(b1, w); err != nil || !proto.Equal(m, w) {
 		fail("reflect-roundtrip", "proto.Unmarshal(proto.Marshal(m)) != m (%v)", err)
+	}
+	// the specialised encoder's other entry points write into a buffer supplied by the caller: a
+	// buffer that was used before (not zeroed) must give the same message
+	if bm, ok := m.(interface {
+		MarshalToVT([]byte) (int, error)
+		MarshalToSizedBufferVT([]byte) (int, error)
+	}); ok {
+		size := vm.SizeVT()
+		for _, sized := range []bool{false, true} {
+			buf := bytes.Repeat([]byte{0xa5}, size)
+			var n int
+			var err error
+			func() {
+				defer func() {
+					if p := recover(); p != nil {
+						err = fmt.Errorf("panic: %v", p)
+					}
+				}()
+				if sized {
+					n, err = bm.MarshalToSizedBufferVT(buf)
+				} else {
+					n, err = bm.MarshalToVT(buf)
+				}
+			}()
+			name := map[bool]string{false: "MarshalToVT", true: "MarshalToSizedBufferVT"}[sized]
+			if err != nil || n != size {
+				fail("vt-marshal-to-buffer", "%s into a buffer of SizeVT() bytes returned %d, %v", name, n, err)
+				continue
+			}
+			u := newMsg()
+			if err := proto.Unmarshal(buf, u); err != nil {
+				fail("vt-marshal-to-buffer", "%s into a used (non-zero) buffer produced bytes the reflection decoder rejects: %v (bytes %s)", name, err, hex.EncodeToString(cut(buf)))
+			} else if !proto.Equal(m, u) {
+				fail("vt-marshal-to-buffer", "%s into a used (non-zero) buffer decodes to a different message: %v", name, u)
+			}
+		}
+	}
+	// map entries are encoded in Go's map iteration order: repeat the specialised round trip so that
+	// every order of a two- or three-entry map is met with near certainty
+	multi := false
+	m.ProtoReflect().Range(func(fd protoreflect.FieldDescriptor, v protoreflect.Value) bool {
+		if fd.IsMap() && v.Map().Len() >= 2 {
+			multi = true
+		}
+		return !multi
+	})
+	if multi {
+		for k := 0; k < 12; k++ {
+			bb, err := vm.MarshalVT()
+			if err != nil {
+				break
+			}
+			zz := newMsg()
+			if err := safeUnmarshalVT(zz, bb); err != nil || !proto.Equal(m, zz) {
+				fail("vt-roundtrip", "UnmarshalVT(MarshalVT(m)) != m for one of the map iteration orders (err %v): got %v", err, zz)
+				break
+			}
+			yy := newMsg()
+			if err := proto.Unmarshal(bb, yy); err != nil || !proto.Equal(m, yy) {
+				fail("reflect-decodes-vt-bytes", "proto.Unmarshal(m.MarshalVT()) != m for one of the map iteration orders (err %v): got %v", err, yy)
+				break
+			}
+		}
 	}
 }
 
